@@ -1697,6 +1697,29 @@ func c07e(c *Ctx) {
 							if mcalls[0].Common().Args[2] != ssa.Value(pcc.Params[2]) {
 								okPcc, whyPcc = false, "control codes are measured in another font than the one asked for"
 							}
+							// what is measured is the match as it stands in the word: a slice of the
+							// word at the match's own bounds (or the matched string itself), with no
+							// call applied to it (upper-casing, trimming) and no arithmetic on the bounds
+							ca := mcalls[0].Common().Args[1]
+							okCode := false
+							switch x := ca.(type) {
+							case *ssa.Slice:
+								okCode = x.X == ssa.Value(pcc.Params[1])
+								for _, b := range []ssa.Value{x.Low, x.High} {
+									if b == nil {
+										okCode = false
+										continue
+									}
+									if _, isBin := b.(*ssa.BinOp); isBin {
+										okCode = false
+									}
+								}
+							case *ssa.UnOp, *ssa.Extract, *ssa.Index, *ssa.Phi:
+								okCode = true // an element of the list of matched strings
+							}
+							if !okCode {
+								okPcc, whyPcc = false, "the control code is looked up as "+pretty(c.term(pcc, ca))+", not as it is written in the word (the table lists codes under their own spelling)"
+							}
 						}
 					}
 				}
